@@ -144,8 +144,8 @@ def derive_engine(prop, tier, seed, out, known):
         viol.append(("derive-nodrop", "types with #[rust_cc(unsafe_no_drop)] and a user-written Drop do not compile: " + " | ".join([l for l in n.stderr.splitlines() if l.startswith("error")][:3])))
     else:
         r = subprocess.run([os.path.join(ptarget, "debug", "derive-nodrop")], stdout=subprocess.PIPE, text=True)
-        if "DROPS 5" not in r.stdout:
-            viol.append(("derive-nodrop", "user-written Drop of unsafe_no_drop types ran %s (expected 'DROPS 5')" % r.stdout.strip()))
+        if "DROPS 7" not in r.stdout:
+            viol.append(("derive-nodrop", "user-written Drop of unsafe_no_drop types ran %s (expected 'DROPS 7')" % r.stdout.strip()))
     run["vacuity"]["drop_conflict_probes"] = expected
     run["vacuity"]["e0119_reported"] = n119
     run["wall_s"] = round(time.time() - t0, 1)
